@@ -226,7 +226,9 @@ EntityTranslation RSForm::DeleteDuplicatesInternal() {
           }
           std::string copyAlias = rsCst2.alias;
           if (EraseInternal(copy)) {
-            translation.Insert(copy, original);
+            EntityTranslation step{};
+            step.Insert(copy, original);
+            translation.SuperposeWith(step);
             core.TranslateAll(CreateTranslator({ { copyAlias, rsCst1.alias } }));
             flag = true;
             break;
